@@ -271,10 +271,10 @@ Definition C18_guard (c : c18case) : bool :=
   | KActiveAt d l _ | KMagAt d l _ | KMaxAfter d l _ | KShift d l _ => dur_guard d l
   | KDuration l _ | KMax l _ => dur_guard 0 l
   | KCutSeg _ s _ => seg_wf s
-  | KSum ls _ => forallb segs_wf ls && (0 <=? sumZ (map tail_level ls))
+  | KSum ls _ => forallb lens_ok_b ls && (0 <=? sumZ (map tail_level ls))
   | KModeMagAt t m _ | KModeActiveAt t m _ | KModeCut t m _ | KModeMaxAfter t m _ => mode_wf m && mode_dur_guard t m
   | KModeShift d m _ => mode_wf m && dur_guard d (msegs m)
-  | KModeSum ms _ => forallb mode_wf ms && forallb (fun m => segs_nonneg (msegs m)) ms && sum_small ms
+  | KModeSum ms _ => forallb mode_wf ms && (0 <=? sumZ (map (fun m => tail_level (msegs m)) ms)) && sum_small ms
   | KCutCompare a b _ => cut_valid a && cut_valid b
   | KCutPeriod p _ => period_wf p
   | KPeriodCtor _ a b _ =>
@@ -296,7 +296,7 @@ Definition agrees (c : c18case) : bool :=
   | KMaxAfter d l obs => obs =? max_after_w d l
   | KCutSeg d s obs => cut3_eqb seg_eqb obs (cut_seg d s)
   | KShift d l obs => segs_eqb obs (shift_w d l)
-  | KSum ls obs => segs_eqb obs (sum ls)
+  | KSum ls obs => segs_eqb obs (sum_w ls)
   | KModeMagAt t m obs => zb_eqb obs (mode_magnitude_at_w t m)
   | KModeActiveAt t m obs => zz_eqb obs (mode_active_at_w t m)
   | KModeCut t m obs => cut3_eqb mode_eqb obs (mode_cut_w t m)
